@@ -347,7 +347,10 @@ func (rn *runner) runSchedule(sc schedule, worker int) {
 	// six full reads must be identical and current
 	quiesce := func(label string) bool {
 		probeOK := false
-		for try := 0; try < 80; try++ {
+		began := time.Now()
+		// 80 retries; a retry can take the server's 10 s time-out, so the watchdog also ends the
+		// loop after 150 s (inconclusive either way)
+		for try := 0; try < 80 && time.Since(began) < 150*time.Second; try++ {
 			w := try % nW
 			st := ws[w]
 			ti := st.next[0]
@@ -372,8 +375,8 @@ func (rn *runner) runSchedule(sc schedule, worker int) {
 			time.Sleep(500 * time.Millisecond)
 		}
 		if !probeOK {
-			c.Inconclusive("no-write-acknowledged-within-80-retries:"+label, 1)
-			fmt.Printf("INCONCLUSIVE C05 schedule %d %s: no write acknowledged within 80 retries\n", sc.Index, label)
+			c.Inconclusive("no-write-acknowledged-within-80-retries-or-150s:"+label, 1)
+			fmt.Printf("INCONCLUSIVE C05 schedule %d %s: no write acknowledged within 80 retries / 150 s\n", sc.Index, label)
 			return false
 		}
 		tl.sample(cl, down)
@@ -826,7 +829,7 @@ func main() {
 	c := vf.New("C05", "fault_enumeration")
 	c.SetRule("seeded nemesis schedules against a real 3 meta / 3 store / 1 sql cluster (ha-policy replication, REPLICAS 3): per fault a concurrent phase (3 writers with unique values incl. overwrites, 2 readers) during which one store — the raft leader or a follower, as read from the control port — is SIGKILLed, killed during a forced flush, or SIGSTOPped; quiescent verification with one store down (a write acknowledged within bounded retries, six identical full reads); heal (restart / SIGCONT), traffic during catch-up, quiescent verification again; the next fault then hits a possibly different store. Oracle: porcupine register check per (series,timestamp) with lost-reply operations kept open; a wrong history is classified by where the wrong reads were given and by the history of the replica that served them; distinct non-trivial = distinct (schedule, fault kind, role of the victim, store)")
 	c.Assume("at most one store is down or paused at any time; meta and sql nodes are not faulted; no network partitions between live processes")
-	c.Assume("bounded liveness: 'writes accepted again' is judged within 80 retries (0.5 s apart); exceeding it is inconclusive, not a violation")
+	c.Assume("bounded liveness: 'writes accepted again' is judged within 80 retries (0.5 s apart, watchdog 150 s); exceeding it is inconclusive, not a violation")
 	c.Assume("a write counts as acknowledged only on HTTP 204; any other reply leaves the operation open; a read that fails, carries an error or is marked partial is not an observation")
 	rn := &runner{c: c}
 	if c.ReplayIn != "" {
